@@ -5,7 +5,7 @@ import re
 from hypothesis import strategies as st
 
 from .. import repo, strategies as S, trcases as TR
-from ..core import SubCheck, Fail, Discard, metric, HarnessError
+from ..core import SubCheck, Fail, Discard, metric, HarnessError, pub_attrs
 
 RULE = ("complete enumeration of the Transformation constants of geodepy.constants: names vs labels, forward/reverse pairs, "
         "re-referencing to every catalogue epoch, all ordered triples (A->B, B->C, A->C) of ITRF sets at every catalogue epoch; "
@@ -38,8 +38,8 @@ def check_item(case):
     kind = case["kind"]
     c, T = _consts()
     if kind == "count":
-        if len(T) != 120:
-            raise Fail("the catalogue no longer has 120 Transformation constants", expected=120, observed=len(T))
+        if len(T) < 120:        # (additional constants are simply checked as well; a missing one cannot be)
+            raise Fail("the catalogue has fewer than the 120 Transformation constants the statement names", expected=120, observed=len(T))
         return
     if kind == "label":
         name = case["name"]
@@ -71,9 +71,9 @@ def check_item(case):
         tr = T[case["name"]]
         d = datetime.date(*case["epoch"])
         before = {k: getattr(tr, k) for k in ALL14}
-        sd_before = dict(vars(tr.tf_sd)) if tr.tf_sd is not None else None
+        sd_before = pub_attrs(tr.tf_sd) if tr.tf_sd is not None else None
         out = tr + d
-        sd_after = dict(vars(tr.tf_sd)) if tr.tf_sd is not None else None
+        sd_after = pub_attrs(tr.tf_sd) if tr.tf_sd is not None else None
         if sd_after != sd_before:
             raise Fail("re-referencing modified the catalogue's parameter uncertainties", expected=sd_before,
                        observed={"name": case["name"], "epoch": case["epoch"], "tf_sd": sd_after})
@@ -162,8 +162,8 @@ def check_structure(case):
     itrf = [n for n in T if re.match(r"^itrf\d+_to_itrf\d+$", n)]
     frames = {tuple(n.split("_to_")) for n in itrf}
     triples = sum(1 for (a, b) in frames for (b2, cc) in frames if b2 == b and cc != a and (a, cc) in frames)
-    if case["what"] == "triples" and triples != 384:
-        raise Fail("the catalogue no longer offers 384 ordered ITRF triples (a set was removed, renamed or added)",
+    if case["what"] == "triples" and triples < 384:
+        raise Fail("the catalogue offers fewer than the 384 ordered ITRF triples the statement names (a set was removed or renamed)",
                    expected=384, observed=triples)
 
 
